@@ -121,6 +121,18 @@ CLAIMS = {
         note=TB + "Partial: object identity/aliasing is not modelled in Lean.",
         technique="Lean 4 theorem over regenerated shape flags + history-based differential correspondence",
         ref="§3 C15"),
+    "C16": dict(
+        text="C16_replay: for every program, arguments and fuel on which the evaluator succeeds, the renderer receives one "
+             "render_traps per static trap zone first and then exactly the translation of the executed event sequence, in order "
+             "(one call per gate with zone/buffers, one per played path, one per member of a parallel group in order, nothing "
+             "for fill/measure); failing runs fail. What each path.visualizer implementation does with the renderer is a table "
+             "regenerated on every run by executing every implementation against a recording renderer with sentinel operands; "
+             "C16_dispatch_ok is decided over it. Tie: the real PathVisualizer with a recording renderer on generated programs vs "
+             "the model, and vs the event log the event-logging spec interpreter obtains from the same compiled kernel.",
+        note=TB + "matplotlib is replaced by an import stub (harness/stubs); the matplotlib renderer itself is out of scope. "
+                  "auto() groups have no executor in the repository and are not generated.",
+        technique="Lean 4 theorem over a regenerated dispatch table + differential correspondence with a recording renderer",
+        ref="§3 C16"),
     "C17": dict(
         text="C17_matrix: for every published lowering wrapper (table regenerated on every run by reflection over the dialect "
              "interface modules and bloqade.geometry's grid module, so new wrappers are picked up) and each of the three kernel "
